@@ -222,6 +222,57 @@ def r4(ctx):
             ctx.ok(construct, f'rejects exactly outside: {" & ".join(exp)}')
 
 
+def _ctor_raises(ctx, ci):
+    """Raise outcomes [(path condition, exception name, node)] of ci's constructor on symbolic, type-correct
+    arguments (sizes positive, sky sizes unit-carrying quantities), and the parameter names."""
+    from ..vg import mark_quantity, reset_marks
+    m = ctx.model
+    init = m.method(ci, '__init__')
+    reset_marks()
+    ev = evaluator(ctx)
+    ps = func_params(init.node)[1:]
+    args = []
+    for p in ps:
+        k = m.descriptor_kind(ci, p)
+        if k in ('ScalarPixCoord', 'OneDPixCoord'):
+            args.append(Obj('PixCoord', {}, p, m.cls('PixCoord')))
+        elif k in ('ScalarSkyCoord', 'OneDSkyCoord'):
+            args.append(Obj('SkyCoord', {}, p))
+        elif k == 'PositiveScalar':
+            args.append(sym(p, positive=True))
+        elif k == 'PositiveScalarAngle':
+            args.append(mark_quantity(sym(p, positive=True)))
+        elif k == 'ScalarAngle':
+            args.append(mark_quantity(sym(p)))
+        elif p in ('meta', 'visual'):
+            args.append(Const(None))
+        else:
+            args.append(sym(p))
+    out = ev.run(init, [Obj(ci.name, {}, None, ci)] + args, {})
+    return ev, ps, out.raises
+
+
+def _cmp_atoms(ev, raises):
+    """comparison atoms of the raise conditions (each raise's own test is the last conjunct of its path)."""
+    from ..vg import walk_terms
+    seen, out = set(), []
+    for pc, exc, node in raises:
+        for t in walk_terms(ev.conj(pc)):
+            if isinstance(t, Cmp) and show(t) not in seen:
+                seen.add(show(t))
+                out.append((t, exc, node))
+    return out
+
+
+def _atom_fields(t, params):
+    names = set()
+    for side in (t.lhs, t.rhs):
+        for sy in getattr(side, 'free_symbols', ()):
+            if sy.name in params:
+                names.add(sy.name)
+    return sorted(names)
+
+
 def r5(ctx):
     m = ctx.model
     n = 0
@@ -229,34 +280,122 @@ def r5(ctx):
         init = ci.methods.get('__init__')
         if init is None:
             continue
-        params = set(func_params(init.node)[1:])
-        for st in stmts_of(init.node):
-            if isinstance(st, ast.If) and isinstance(st.test, ast.Compare) and any(
-                    isinstance(x, ast.Raise) for x in st.body):
-                names = {x.id for x in ast.walk(st.test) if isinstance(x, ast.Name)} & params
-                if not names or len(st.test.ops) != 1:
-                    continue
-                if isinstance(st.test.left, ast.Call):
-                    continue
-                n += 1
-                fields = sorted(names)
-                # is the same constraint reachable from attribute assignment?  Only through a descriptor hook.
-                guarded = False
-                for fld in fields:
-                    k = m.descriptor_kind(ci, fld)
-                    if k:
-                        d = m.cls(k)
-                        v = m.method(d, '_validate')
-                        if v and any(f2 in norm(v.node) for f2 in fields if f2 != fld):
-                            guarded = True
-                if guarded:
-                    ctx.ok(f'{ci.name}:{"/".join(fields)}', 'constraint also enforced on assignment')
-                else:
-                    ctx.bad(ci.name, f'constructor-only:{norm(st.test)}',
-                            f'the constraint `not ({norm(st.test)})` is checked only in the constructor: a later '
-                            f'assignment to {" or ".join(fields)} can violate it (e.g. inner size >= outer size gives a '
-                            'negative area / empty annulus)', init.loc(st))
+        ev, ps, raises = _ctor_raises(ctx, ci)
+        # constraints inherited through super().__init__ are reported on the class that states them
+        inherited = set()
+        for b in ci.mro[1:]:
+            if b.methods.get('__init__') is not None and m.is_subclass(b, 'Region') and b.name != 'Region':
+                ev_b, _, r_b = _ctor_raises(ctx, b)
+                inherited |= {show(t) for t, _, _ in _cmp_atoms(ev_b, r_b)}
+                break
+        for t, exc, node in _cmp_atoms(ev, raises):
+            if show(t) in inherited:
+                continue
+            fields = _atom_fields(t, set(ps))
+            if not fields:
+                continue
+            n += 1
+            guarded = False
+            for fld in fields:
+                k = m.descriptor_kind(ci, fld)
+                if k:
+                    v = m.method(m.cls(k), '_validate')
+                    others = [f2 for f2 in fields if f2 != fld] or [fld]
+                    if v and len(fields) > 1 and any(f2 in norm(v.node) for f2 in others):
+                        guarded = True
+                    if v and len(fields) == 1:
+                        # single-field constraint: enforced on assignment when the field's own validator
+                        # states the same comparison
+                        vt = [norm(x.test) for x in ast.walk(v.node) if isinstance(x, ast.If)]
+                        guarded = any(re_const(show(t)) in x for x in vt)
+            if guarded:
+                ctx.ok(f'{ci.name}:{"/".join(fields)}', 'constraint also enforced on assignment')
+            else:
+                ctx.bad(ci.name, f'constructor-only:{"/".join(fields)}',
+                        f'the constraint `not {show(t, 120)}` is checked only in the constructor: a later '
+                        f'assignment to {" or ".join(fields)} can violate it (e.g. inner size >= outer size gives a '
+                        'negative area / empty annulus)', init.loc(node) if hasattr(node, 'lineno') else init.loc())
     ctx.need(n >= 7, 'cross-field constraints', f'only {n} found')
+
+
+def re_const(text):
+    """the numeric bound in a shown single-field atom such as `(nvertices < 3)`"""
+    import re
+    mt = re.search(r'[<>=]+ *([-0-9.]+)\)?$', text)
+    return mt.group(1) if mt else text
+
+
+def _eval_bool(t, val):
+    if isinstance(t, Const):
+        return bool(t.v)
+    if isinstance(t, Cmp):
+        return val(t)
+    if isinstance(t, BoolT):
+        xs = [_eval_bool(a, val) for a in t.args]
+        if t.op == 'not':
+            return not xs[0]
+        if t.op == 'and':
+            return all(xs)
+        if t.op == 'or':
+            return any(xs)
+        if t.op == 'xor':
+            return xs[0] != xs[1]
+    raise AnalysisError('C17.R5b', 'raise condition', f'not a boolean combination of comparisons: {show(t, 120)}')
+
+
+def r5b(ctx):
+    """constructor rejects exactly when some outer size does not exceed its inner size (as quantities)."""
+    from ..vg import mk_not, pred_equiv
+    m = ctx.model
+    n = 0
+    for ci in m.region_classes(concrete=False):
+        init = ci.methods.get('__init__')
+        if init is None:
+            continue
+        ps = func_params(m.method(ci, '__init__').node)[1:]
+        pairs = [(p, 'outer_' + p[6:]) for p in ps if p.startswith('inner_') and 'outer_' + p[6:] in ps]
+        if not pairs:
+            continue
+        n += 1
+        construct = f'{ci.name}.__init__'
+        ev, ps, raises = _ctor_raises(ctx, ci)
+        pos = m.descriptor_kind(ci, pairs[0][0]) in ('PositiveScalar', 'PositiveScalarAngle')
+        want = [Cmp('<=', sym(o, positive=pos), sym(i, positive=pos)) for i, o in pairs]
+        cond = [ev.conj(pc) for pc, exc, node in raises if exc == 'ValueError']
+        other = [exc for pc, exc, node in raises if exc != 'ValueError']
+        amap, bad = {}, None
+        for t, exc, node in _cmp_atoms(ev, raises):
+            for k, w in enumerate(want):
+                if pred_equiv(t, w) == 'eq':
+                    amap[show(t)] = (k, True)
+                    break
+                nt = mk_not(t)
+                if isinstance(nt, Cmp) and pred_equiv(nt, w) == 'eq':
+                    amap[show(t)] = (k, False)
+                    break
+            else:
+                bad = t
+        if bad is not None or other:
+            what = (f'the comparison {show(bad, 160)} is not `outer <= inner` on the sizes themselves (for sky regions: on '
+                    'the quantities, whatever their units)') if bad is not None else f'raises {other[0]} instead of ValueError'
+            ctx.bad(construct, 'ordering-predicate', 'annulus constructor: ' + what, init.loc())
+            continue
+        ok = True
+        for bits in itertools.product((False, True), repeat=len(want)):
+            def val(t, bits=bits):
+                k, polarity = amap[show(t)]
+                return bits[k] if polarity else not bits[k]
+            got = any(_eval_bool(c, val) for c in cond)
+            if got != any(bits):
+                ok = False
+                ctx.bad(construct, 'ordering-predicate',
+                        f'with {", ".join(f"{o}<={i}" + ("" if b else " false") for (i, o), b in zip(pairs, bits))} the '
+                        f'constructor {"raises" if got else "does not raise"}; outer sizes not exceeding inner ones must be '
+                        'rejected, and only those', init.loc())
+                break
+        if ok:
+            ctx.ok(construct, f'rejects iff {" or ".join(f"{o} <= {i}" for i, o in pairs)}')
+    ctx.need(n >= 8, 'annulus constructors', f'only {n} found')
 
 
 INSERTING = ('__init__', '__setitem__', 'update', 'setdefault', '__ior__')
@@ -442,6 +581,7 @@ RULES = [
     RuleDef('R3', 'single raw writer of instance state', r3, 1),
     RuleDef('R4', 'validator rejection predicates = documented domains (NaN-aware truth tables)', r4, 10),
     RuleDef('R5', 'cross-field constraints guard assignment too', r5, 7),
+    RuleDef('R5b', 'annulus constructors reject exactly outer <= inner (unit-aware)', r5b, 8),
     RuleDef('R6', 'metadata whitelist at every inserting entry point', r6, 6),
     RuleDef('R6b', 'multi-key metadata inserts are all-or-nothing', r6b, 3),
     RuleDef('R7', 'region lists only accept regions', r7, 4),
